@@ -11,7 +11,20 @@ RULE = ("k-shortest-paths queries on the real core code: SearchAlgorithm::{KspSi
         "costs, one in four with a non-zero initial state; k 1..6 from the "
         "configuration or the query, AcceptAll (explicit or default) / EdgeIdCosine / DistanceWeightedCosine with "
         "thresholds {0,0.3,0.6,0.9,1}, termination Exact / MaxIteration 0..8 / Factor 0..3, underlying Dijkstra and A* "
-        "(factors default, 0.5, 1; exact or zero estimate). I vs M: status, iterations, both trees and every route hop "
+        "(factors default, 0.5, 1; exact or zero estimate); one world in four queried edge to edge "
+        "(SearchAlgorithm::run_edge_oriented: origin hop with the initial state at zero cost, destination hop repeating "
+        "the state before it at zero cost, inner routes judged as the vertex query); families for an INEXACT underlying "
+        "search (A* weight factor 2 / 5 / 10 from the configuration or the query, on a network whose estimate table lures "
+        "the forward search onto a worse route than the reverse search finds, and on one random world in seven: every "
+        "route must still be a connected origin-destination walk in forward edge order; least-cost and the state fold "
+        "are not judged there because a weighted A* may re-open a vertex, C03's K_reopen); link lengths below one "
+        "distance unit (k/64 < 1, one world in six and the fractional-lanes family: the product of two route norms is "
+        "below 1 and the distance-weighted cosine must still be compared with the configured threshold); a "
+        "TerminationModel in the SearchInstance (hub networks of 4..30 two-link alternatives, IterationsLimit around "
+        "the number of via candidates, k up to the number of alternatives): single_via_paths_algorithm::run does not "
+        "consult the termination model in its candidate loop -- only the two underlying searches do -- so whenever "
+        "the model's two underlying searches finish under the limit the answer must be Ok (a `terminated` outcome is "
+        "accepted only when one of them runs into the limit). I vs M: status, iterations, both trees and every route hop "
         "(floats bit-exact) and the AcceptAll route count, skipped when the model had to choose among equal priorities "
         "(TIE). I vs S, all cases: the verified checker evaluated in Coq over exact rationals on the implementation's "
         "routes (1..k routes; each a chained origin-destination walk visiting no vertex twice; pairwise distinct; no "
@@ -19,6 +32,17 @@ RULE = ("k-shortest-paths queries on the real core code: SearchAlgorithm::{KspSi
         "checked dual certificate; AcceptAll count >= count; no error/panic/hang on a reachable destination). "
         "Yen with k >= 2 runs under catch_unwind + watchdog (known finding K_yens_k_ge_2). "
         "Non-trivial = at least 2 routes returned, or an error outcome; distinct by (world, configuration)")
+
+
+RULE_SIM = ("RouteSimilarityFunction::test_similarity (deserialised from its JSON configuration) called directly on pairs of "
+            "edge-id sequences over a path network: boundary pairs (near copy, identical, same set in another order, disjoint, "
+            "one shared edge, repeated edges, empty routes, subset, zero-length links only) on four length tables (k/64 below "
+            "one unit, all 1, metre scale, with zero-length links) x AcceptAll / EdgeIdCosine / DistanceWeightedCosine at "
+            "several thresholds, then random pairs (second route a mutation of the first two times in three) over lengths "
+            "k/64 < 1, k/4096, 1..3, k/64 < 2^14, or with zeros; thresholds {0,0.25,0.3,0.5,0.6,0.75,0.9,1}. I vs M: the model's "
+            "binary64 evaluation. I vs S: the exact-rational decision (similar when rank > threshold*(1+2^-40), not similar "
+            "when rank < threshold*(1-2^-40) or undefined; in between the implementation's answer stands). Non-trivial = the "
+            "routes share an edge or the product of their norms is below 1")
 
 
 RULE_APP = ("end to end through the application: a REAL CompassApp built offline from a generated TOML configuration whose "
@@ -38,6 +62,13 @@ RULE_APP = ("end to end through the application: a REAL CompassApp built offline
             "more similar than the CONFIGURED threshold, every hop state = fold of the lengths, first route = least cost by a "
             "checked dual certificate, AcceptAll count >= count, no error on a reachable destination, build error for an "
             "ill-typed k / missing destination. No model line. Non-trivial = >= 2 routes returned or an error response")
+
+
+def run_sim_stream(chk, binp):
+    n = 700 if chk.tier == "quick" else 8000
+    r = vf.run_stream(binp, "sim", n, chk.seed, os.path.join(chk.outdir, "sim"), replay=chk.replay)
+    chk.add_stream(r, RULE_SIM)
+    vf.compare(chk, r, classify=classify, binpath=binp)
 
 
 def run_app_stream(chk):
@@ -107,6 +138,11 @@ def run(chk):
                               found=False, key="obligation")
             return
     binp = vf.build_harness("c13")
+    if chk.replay:
+        import json
+        if json.load(open(chk.replay)).get("stream") == "sim":
+            run_sim_stream(chk, binp)
+            return
     n = 1200 if chk.tier == "quick" else 25000
     if not chk.replay:
         # corpus witnesses first, so the KNOWN-FINDING line is printed on every run
@@ -122,6 +158,7 @@ def run(chk):
     chk.add_stream(r, RULE)
     vf.compare(chk, r, classify=classify, binpath=binp)
     if not chk.replay:
+        run_sim_stream(chk, binp)
         run_app_stream(chk)
     if chk.broken_obligation:
         chk.violation("broken-obligation", "proofs", {"obligations": chk.broken_obligation}, "does not check", "Qed",
